@@ -94,12 +94,14 @@ Proof.
   intro H.
   assert (Hp : pubs (h ++ [e]) = pubs h ++ (match e with EvPublish m => [m] | _ => [] end)).
   { clear H. induction h as [|x h IH]; [destruct e; reflexivity|]. destruct x; cbn [pubs app]; rewrite ?IH; reflexivity. }
-  rewrite Hp. destruct e as [m|k id|id| | |b| | |did]; cbn [step]; rewrite ?app_nil_r.
+  rewrite Hp. destruct e as [m|k id|id| | |b| |v|pid|raw|]; cbn [step]; rewrite ?app_nil_r.
   - now apply merge_ok_publish.
   - destruct (existsb _ _); exact H.
   - destruct (partition _ _). exact H.
   - destruct (g_in s); exact H.
   - destruct (negb (g_in s)); [exact H|]. destruct (partition _ _). exact H.
+  - exact H.
+  - exact H.
   - exact H.
   - exact H.
   - exact H.
